@@ -3217,7 +3217,7 @@ MUTANTS = [
     _m("partition-grid-unpack-order", "sg, fm, nm = extract_subgrid(g, ci)", "sg, nm, fm = extract_subgrid(g, ci)", "R6"),
     _m("overlap-one-layer-short", "for _ in range(num_layers):", "for _ in range(num_layers - 1):", "R7", count=2),
     _m("overlap-signed-incidence", "        cf.data = np.ones_like(cf.data)\n", "", "R7"),
-    _m("revert-fix-7cd3b1475-overlap-incidence-rebuilt-without-shape", "        cf = g.cell_faces.tocsc(copy=True)\n        cf.data = np.ones_like(cf.data)\n",
+    _m("revert-fix-6954172d6-overlap-incidence-rebuilt-without-shape", "        cf = g.cell_faces.tocsc(copy=True)\n        cf.data = np.ones_like(cf.data)\n",
        "        cf = g.cell_faces\n        data = np.ones_like(cf.data)\n        cf = sps.csc_matrix((data, cf.indices, cf.indptr))\n", "R7"),
     _m("overlap-overwrites-grid-incidence", "        cf = g.cell_faces.tocsc(copy=True)\n", "        cf = g.cell_faces.tocsc()\n", "R7"),
     _m("overlap-face-arm-marks-nodes", "            active_faces[np.squeeze(np.where((cf * active_cells) > 0))] = 1",
